@@ -1,4 +1,5 @@
 import Cgm.Props.C11
+import Cgm.Lemmas.NlerpArc
 /-!
 # C14 — lerp, nlerp and slerp interpolate with exact endpoints along the shortest path
 -/
@@ -213,11 +214,53 @@ theorem slerp_far_spec (a b : Quat ℝ) (ha : a.magnitude2 = 1) (hb : b.magnitud
     rw [slerp_far_eq a b 1 hfar' hd1', z3]
     ext <;> simp <;> field_simp
 
-/-- full statement of the near-branch envelope (arc within `1e-5` rad of `t` times the whole
-arc when `|a·b| > 0.9995`); not proved here — it is evaluated by the f64 oracle -/
-def slerp_near_bound_full : Prop :=
-  ∀ (a b : Quat ℝ) (t : ℝ), a.magnitude2 = 1 → b.magnitude2 = 1 → 0 ≤ t → t ≤ 1 →
-    (Lits.thr : ℝ) = 0.9995 → (Lits.thr : ℝ) < |Quat.dot a b| →
-    abs (Real.arccos (Quat.dot a (a.slerp b t)) - t * Real.arccos (abs (Quat.dot a b))) ≤ 1e-5
+theorem mag2_nonneg (c : Quat ℝ) : 0 ≤ c.magnitude2 := by
+  obtain ⟨⟨x, y, z⟩, w⟩ := c
+  simp
+  nlinarith [mul_self_nonneg x, mul_self_nonneg y, mul_self_nonneg z, mul_self_nonneg w]
+
+/-- **the near-branch envelope of the property**: above the `0.9995` hand-over `slerp` is `nlerp`,
+and the arc it has covered at parameter `t` is within `1e-5` rad of `t` times the whole arc
+(`Cgm/Lemmas/NlerpArc.lean`: `√N sin(α - tθ) = t sin((1-t)θ) - (1-t) sin(tθ)`, `|·| ≤ θ³/24`, `θ < 0.032`) -/
+theorem slerp_near_bound (a b : Quat ℝ) (t : ℝ) (ha : a.magnitude2 = 1) (hb : b.magnitude2 = 1)
+    (h0 : 0 ≤ t) (h1 : t ≤ 1) (hthr : (Lits.thr : ℝ) = 0.9995) (hnear : (Lits.thr : ℝ) < |Quat.dot a b|) :
+    abs (Real.arccos (Quat.dot a (a.slerp b t)) - t * Real.arccos (abs (Quat.dot a b))) ≤ 1e-5 := by
+  obtain ⟨fb, fd, _⟩ := flip_spec a b hb
+  set b' := flip a b with hb'
+  set d := |Quat.dot a b| with hd
+  have hd0 : 0.9995 < d := by rw [← hthr]; exact hnear
+  -- |a·b| ≤ 1 for unit quaternions
+  have hd1 : d ≤ 1 := by
+    obtain ⟨m, _, _⟩ := comb_dots a b' ha fb 1 (-1)
+    have hnn : 0 ≤ (a * (1 : ℝ) + b' * (-1 : ℝ)).magnitude2 := by
+      exact mag2_nonneg _
+    rw [m, fd] at hnn
+    linarith
+  -- the second flip inside nlerp does nothing: a·b' = d ≥ 0
+  have hff : flip a b' = b' := by
+    unfold flip
+    rw [if_neg]
+    rw [fd, not_lt]; linarith
+  have hs : a.slerp b t = (a * (1 - t) + b' * t).normalize := by
+    rw [slerp_near_eq a b t hnear, nlerp_eq, hff]
+  obtain ⟨m, dm, _⟩ := comb_dots a b' ha fb (1 - t) t
+  rw [fd] at m dm
+  obtain ⟨hN1, hu0, huN, hd2⟩ := Cg.NlerpArc.N_bounds hd0 hd1 h0 h1
+  have hNpos : 0 < (1 - t) * (1 - t) + t * t + 2 * (1 - t) * t * d := by linarith
+  have hc : (a * (1 - t) + b' * t).magnitude2 =
+      Real.sqrt ((1 - t) * (1 - t) + t * t + 2 * (1 - t) * t * d) *
+        Real.sqrt ((1 - t) * (1 - t) + t * t + 2 * (1 - t) * t * d) := by
+    rw [m, Real.mul_self_sqrt hNpos.le]
+  obtain ⟨_, n2, _⟩ := normalize_comb _ _ (Real.sqrt_pos.mpr hNpos) hc a
+  rw [hs, n2, dm]
+  exact Cg.NlerpArc.arc_bound hd0 hd1 h0 h1
+
+/-- non-vacuity: two unit quaternions at `a·b = 9999/10001 > 0.9995` -/
+example :
+    let a : Quat ℝ := ⟨⟨0, 0, 0⟩, 1⟩
+    let b : Quat ℝ := ⟨⟨200 / 10001, 0, 0⟩, 9999 / 10001⟩
+    a.magnitude2 = 1 ∧ b.magnitude2 = 1 ∧ (0.9995 : ℝ) < |Quat.dot a b| := by
+  refine ⟨by norm_num [Quat.magnitude2], by norm_num [Quat.magnitude2], ?_⟩
+  norm_num [Quat.dot, abs_of_pos]
 
 end Cg.C14
